@@ -103,6 +103,7 @@ type Contracts struct {
 	Generate []*GenerateDecl
 	Files    []string
 	Guards   map[string]GuardDecl // "pkgpath::global" -> mutex
+	NonNilGlobals map[string]bool // "pkgpath::global": assigned once, in the package initializer, a non-nil value
 }
 
 type GuardDecl struct {
@@ -111,14 +112,14 @@ type GuardDecl struct {
 }
 
 func newContracts() *Contracts {
-	return &Contracts{Funcs: map[string]*FuncContract{}, Specs: map[string]*SpecDecl{}, Ghosts: map[string]*GhostDecl{}, Guards: map[string]GuardDecl{}}
+	return &Contracts{Funcs: map[string]*FuncContract{}, Specs: map[string]*SpecDecl{}, Ghosts: map[string]*GhostDecl{}, Guards: map[string]GuardDecl{}, NonNilGlobals: map[string]bool{}}
 }
 
 // classOverride: struct types (pkgname.Type) whose components belong to a class other than
 // their package's (e.g. per-call error objects are not part of the shared document).
 var classOverride = map[string]string{}
 
-var declKeywords = map[string]bool{"guarded": true, "class": true, "func": true, "iface": true, "fnfield": true, "pred": true, "spec": true, "axiom": true,
+var declKeywords = map[string]bool{"global": true, "guarded": true, "class": true, "func": true, "iface": true, "fnfield": true, "pred": true, "spec": true, "axiom": true,
 	"lemma": true, "ghost": true, "generate": true, "trusted": true}
 var clauseKeywords = map[string]bool{"requires": true, "ensures": true, "modifies": true, "panics_if": true, "loop": true,
 	"tag": true, "pure": true, "records": true, "preserves": true, "defines": true, "assuming": true, "fresh": true, "reads": true, "option": true, "nosafety": true}
@@ -385,6 +386,15 @@ func (cs *Contracts) loadContractFile(path, pkgPath string) error {
 				return fail("%v", err)
 			}
 			cs.Ghosts[f[1]] = &GhostDecl{Name: f[1], Pkg: pkgPath, Ty: ty}
+		case "global":
+			cur = nil
+			f := strings.Fields(rest)
+			if len(f) < 2 || f[0] != "nonnil" {
+				return fail("expected: global nonnil <name>...")
+			}
+			for _, n := range f[1:] {
+				cs.NonNilGlobals[pkgPath+"::"+strings.TrimSuffix(n, ",")] = true
+			}
 		case "guarded":
 			cur = nil
 			f := strings.Fields(rest)
